@@ -32,6 +32,7 @@ CALLS = {
     "LatticeNode::begin": (MC, {}),
     "LatticeNode::end": (MC, {}),
     "LatticeNode::char_range": (MC, {}),
+    "LatticeNode::num_codepts": (MC, {}),
     "ResultNode::begin_bytes": (MB, {}),
     "ResultNode::end_bytes": (MB, {}),
     "ResultNode::bytes_range": (MB, {}),
